@@ -78,6 +78,8 @@ def to_input(t, v, form, buf=None):
             return x
         return x.item()
     if kk == "string":
+        if "cap" in v:
+            return v["cap"]
         return bytes(v["s"]).decode("utf8")
     if kk == "struct":
         return {fname: to_input(ft, fv, form if form != "xobj" else "py") for (fname, ft), fv in zip(t["fields"], v["f"])}
